@@ -320,6 +320,18 @@ func c01Specs() []leafSpec {
 			}
 		}
 	}
+	// both bounds, both exclusivity flags, values on and next to both bounds
+	for _, lo := range []string{"1", "-2.5"} {
+		for _, hi := range []string{"5", "2.50"} {
+			for _, el := range []string{"true", "false"} {
+				for _, eh := range []string{"true", "false"} {
+					rules := []gen.Rule{{Name: "min", Val: lit(lo)}, {Name: "exclusiveMinimum", Val: lit(el)}, {Name: "max", Val: lit(hi)}, {Name: "exclusiveMaximum", Val: lit(eh)}}
+					specs = append(specs, leafSpec{"min " + lo + " excl=" + el + " max " + hi + " excl=" + eh + " ints", rules, "integer", "2", []string{"1", "5", "2", "0", "6", "-2", "-3"}})
+					specs = append(specs, leafSpec{"min " + lo + " excl=" + el + " max " + hi + " excl=" + eh + " floats", rules, "float", "1.5", []string{"1.0", "5.0", "2.5", "2.50", "2.51", "-2.5", "-2.50", "-2.51", "1.5"}})
+				}
+			}
+		}
+	}
 	for _, n := range []int{0, 1, 3} {
 		var vals []string
 		for _, l := range []int{n - 1, n, n + 1, n + 5} {
@@ -404,6 +416,9 @@ func c01Placements(s leafSpec, v string) []*gen.Project {
 		Types: []gen.NamedNode{typeT, {Name: "@u", Node: &gen.Node{Kind: gen.KindOfLiteral(s.exemplar), Lit: s.exemplar, Rules: refRule, HasRules: true}}}}) // type of type
 	out = append(out, &gen.Project{Root: leaf([]gen.Rule{{Name: "type", Val: gen.LitV(`"@c"`)}}),
 		Types: []gen.NamedNode{typeT, strT, {Name: "@c", Node: gen.Ref("@s", "@t")}}}) // via a choice type
+	for _, rs := range [][]gen.Rule{{{Name: "type", Val: gen.LitV(`"@t"`)}}, {{Name: "type", Val: gen.LitV(`"@t"`)}, {Name: "nullable", Val: gen.LitV("true")}}, {{Name: "nullable", Val: gen.LitV("true")}, {Name: "type", Val: gen.LitV(`"@t"`)}}} {
+		out = append(out, &gen.Project{Root: leaf([]gen.Rule{{Name: "or", Val: gen.ListOf(gen.SetOf(rs...), gen.SetOf(gen.Rule{Name: "type", Val: gen.LitV(`"object"`)}))}}), Types: []gen.NamedNode{typeT}}) // via an or rule-set naming the type
+	}
 	if s.typeName != "" && s.typeName != "enum" && !isConst {
 		set := append([]gen.Rule{{Name: "type", Val: gen.LitV(gen.Q(s.typeName))}}, s.rules...)
 		out = append(out, &gen.Project{Root: leaf([]gen.Rule{{Name: "or", Val: gen.ListOf(gen.SetOf(set...), gen.SetOf(gen.Rule{Name: "type", Val: gen.LitV(`"object"`)}))}})})
@@ -464,7 +479,7 @@ func init() {
 				c01Judge(r, c.Project, c.Layout, false)
 			}
 		},
-		Rule:               "projects (root + user types + regex types + enum rules) are built from a rule/type compatibility table so that they are structurally valid, printed to text and given to Check(); an independent evaluator (exact decimals, Go regexp, calendar checks, labelled email/uri pools) computes for every example value whether it satisfies the rules written next to it, directly or through type references / or alternatives / choice types / named enums. Grid (complete): every rule kind (min/max x exclusivity x 8 bounds, minLength/maxLength, regex, precision, 5 formats, enum sets, const) x every boundary value class x 9 placements (direct, object member, array item, with nullable, via type:\"@t\", via or of user types, via type of type, via a choice type, via an or rule-set). Random: generated projects with values drawn next to their bounds. A case is non-trivial when the reference verdict is satisfies or violates (not unspecified) and the library's answer was judged; distinct by printed text (hashed).",
+		Rule:               "projects (root + user types + regex types + enum rules) are built from a rule/type compatibility table so that they are structurally valid, printed to text and given to Check(); an independent evaluator (exact decimals, Go regexp, calendar checks, labelled email/uri pools) computes for every example value whether it satisfies the rules written next to it, directly or through type references / or alternatives / choice types / named enums. Grid (complete): every rule kind (min/max x exclusivity x 8 bounds, minLength/maxLength, regex, precision, 5 formats, enum sets, const) x every boundary value class x 12 placements (direct, object member, array item, with nullable, via type:\"@t\", via or of user types, via type of type, via a choice type, via or rule-sets {type:\"@t\"} / {type:\"@t\", nullable:true} in both orders, via an or rule-set with the rules inline). Random: generated projects with values drawn next to their bounds. A case is non-trivial when the reference verdict is satisfies or violates (not unspecified) and the library's answer was judged; distinct by printed text (hashed).",
 		MinNontrivialQuick: 20000, MinNontrivialThorough: 300000,
 		MaxInconclusiveFrac: 0.10,
 		Assumptions: []string{"reference evaluator harness/internal/ref/eval.go written from the property statement and README wording; corners the documentation leaves open are 'unspecified' and never produce a violation (byte vs rune length, numbers equal in value but not in text, integer literal under type float, null example under an explicit non-null type with nullable, trailing zeros deciding precision, email/uri outside labelled pools)",
